@@ -10,19 +10,20 @@ use std::io::Cursor;
 
 fn fields(dt: Option<DateTime<Utc>>) -> Value {
     match dt {
-        None => json!({"none": true, "days": 0, "ms": 0, "y": 0, "mo": 0, "da": 0, "h": 0, "mi": 0, "s": 0, "ms3": 0}),
+        None => json!({"none": true, "days": 0, "ms": 0, "y": 0, "mo": 0, "da": 0, "h": 0, "mi": 0, "s": 0, "ms3": 0, "subms": 0}),
         Some(t) => {
             let n = t.naive_utc();
             let days = n.date().num_days_from_ce() as i64 - 719_163;
             let ms = n.time().num_seconds_from_midnight() as i64 * 1000 + (n.time().nanosecond() / 1_000_000) as i64;
-            json!({"none": false, "days": days, "ms": ms, "y": n.year(), "mo": n.month(), "da": n.day(), "h": n.hour(), "mi": n.minute(), "s": n.second(), "ms3": n.time().nanosecond() / 1_000_000 % 1000})
+            json!({"none": false, "days": days, "ms": ms, "y": n.year(), "mo": n.month(), "da": n.day(), "h": n.hour(), "mi": n.minute(), "s": n.second(), "ms3": n.time().nanosecond() / 1_000_000 % 1000,
+                   "subms": n.time().nanosecond() % 1_000_000})
         }
     }
 }
 
 fn ts_fields(ts: Option<i64>) -> Value {
     match ts {
-        None => json!({"none": true, "days": 0, "ms": 0, "y": 0, "mo": 0, "da": 0, "h": 0, "mi": 0, "s": 0, "ms3": 0}),
+        None => json!({"none": true, "days": 0, "ms": 0, "y": 0, "mo": 0, "da": 0, "h": 0, "mi": 0, "s": 0, "ms3": 0, "subms": 0}),
         Some(ts) => {
             let mut v = fields(DateTime::from_timestamp_millis(ts));
             v["days"] = json!(ts.div_euclid(86_400_000));
@@ -83,7 +84,7 @@ pub fn run(args: &Args) {
         res.case(fnv(format!("{acc}{d}/{t}").as_bytes()), inrange);
         let mut e = match call(acc, d, t) {
             Ok(v) => { let mut v = v; v["panic"] = json!(false); v }
-            Err(_) => json!({"panic": true, "none": true, "days": 0, "ms": 0, "y": 0, "mo": 0, "da": 0, "h": 0, "mi": 0, "s": 0, "ms3": 0}),
+            Err(_) => json!({"panic": true, "none": true, "days": 0, "ms": 0, "y": 0, "mo": 0, "da": 0, "h": 0, "mi": 0, "s": 0, "ms3": 0, "subms": 0}),
         };
         e["acc"] = json!(acc); e["unit"] = json!(unit); e["d"] = json!(d); e["t"] = json!(t); e["inrange"] = json!(inrange);
         tr.ev(e);
